@@ -19,6 +19,9 @@ pub struct Torrent {
     pub announce: String,
     pub content: Vec<u8>,
     pub hashes: Vec<[u8; 20]>,
+    /// multi-file form only: the info dictionary also carries a `length` key holding the sum of the file lengths
+    /// (BEP3 says either `length` or `files`; some writers emit both)
+    pub also_length: bool,
 }
 
 pub fn sha1(data: &[u8]) -> [u8; 20] {
@@ -91,7 +94,7 @@ impl Torrent {
                 sha1(&content[s..e])
             })
             .collect();
-        Torrent { geo, announce: announce.to_string(), content, hashes }
+        Torrent { geo, announce: announce.to_string(), content, hashes, also_length: false }
     }
 
     pub fn piece(&self, i: usize) -> &[u8] {
@@ -122,6 +125,9 @@ impl Torrent {
                 })
                 .collect();
             info.push((b"files".to_vec(), RVal::List(files)));
+            if self.also_length {
+                info.push((b"length".to_vec(), RVal::Int(self.geo.total() as i64)));
+            }
         } else {
             info.push((b"length".to_vec(), RVal::Int(self.geo.total() as i64)));
         }
